@@ -38,7 +38,11 @@ def swc_to_jaxley(
     # `ndmin=2` such that a file with a single row (a point neuron) is also a matrix.
     content = np.loadtxt(fname, ndmin=2)[:num_lines]
     types = content[:, 1]
-    is_single_point_soma = types[0] == 1 and (len(types) == 1 or types[1] != 1)
+    # The soma consists of a single point if no child of the root is a soma point. (The
+    # second row of the file need not be a soma point even if the soma continues: a
+    # neurite that is attached to the root can be listed before the rest of the soma.)
+    types_of_root_children = types[content[:, 6] == content[0, 0]]
+    is_single_point_soma = types[0] == 1 and not np.any(types_of_root_children == 1)
 
     if is_single_point_soma:
         # Warn here, but the conversion of the length happens in `_compute_pathlengths`.
